@@ -216,11 +216,15 @@ def execute(sc, ctx):
         objs.append({"o": o, "m": models, "spec": spec, "calls": 0})
         if spec["period"] <= 0:
             ctx.hit("period_nonpositive")
+    held = []
     for op in sc["ops"]:
         ctx.op(op["op"])
         with warnings.catch_warnings():
             warnings.simplefilter("ignore")
-            _step(qz, objs, op, ctx)
+            _step(qz, objs, op, ctx, held)
+            if not ctx.violations and not _held_intact(ctx, held):
+                break
+            del held[:-6]
         if ctx.violations and ctx.stop_on_violation:
             break
     ctx.sim_time += 1e-6 * sum(o["calls"] for o in objs)
@@ -232,7 +236,17 @@ def execute(sc, ctx):
                        sorted({op["op"] for op in sc["ops"]})]
 
 
-def _step(qz, objs, op, ctx):
+def _held_intact(ctx, held):
+    """What earlier calls returned is the caller's: later calls must not change it."""
+    for ret, snap, what in held:
+        if not ctx.check(np.array_equal(np.asarray(ret), snap, equal_nan=True), "held",
+                         "C09/returned_array_changed_by_later_call/" + what,
+                         "an array returned by an earlier quantize() no longer holds the values it was returned with"):
+            return False
+    return True
+
+
+def _step(qz, objs, op, ctx, held):
     kind = op["op"]
     if kind in ("q", "reset", "target") and objs[op["q"] % len(objs)].get("dead"):
         return
@@ -248,7 +262,12 @@ def _step(qz, objs, op, ctx):
             due = m.refresh_due()
             pre, refreshed = m.pre(x, cu)
             fn = o.digitize if op.get("alias") else o.quantize
-            got = np.asarray(fn(x.copy(), custom_std=cu))
+            xin = x.copy()
+            raw_ret = fn(xin, custom_std=cu)
+            got = np.asarray(raw_ret)
+            held.append((raw_ret, np.array(got, copy=True), "real"))
+            if not ctx.check(np.array_equal(xin, x, equal_nan=True), "args", "C09/input_array_modified/real", "the caller's input array was changed"):
+                return
             ctx.event("q", op["q"], got)
             _note(ctx, S, m, x, cu, refreshed)
             _judge(ctx, got, pre, m.bits, x, "real", _cls_of_input(x, m.ncalc) if refreshed and cu is None else "")
@@ -268,7 +287,12 @@ def _step(qz, objs, op, ctx):
                 pre, refreshed = m.pre(arr, c)
                 pres.append((pre, refreshed))
                 _note(ctx, S, m, arr, c, refreshed)
-            got = np.asarray(o.quantize(z.copy(), custom_stds=copy.deepcopy(cu)))
+            zin = z.copy()
+            raw_ret = o.quantize(zin, custom_stds=copy.deepcopy(cu))
+            got = np.asarray(raw_ret)
+            held.append((raw_ret, np.array(got, copy=True), "complex"))
+            if not ctx.check(np.array_equal(zin, z, equal_nan=True), "args", "C09/input_array_modified/complex", "the caller's input array was changed"):
+                return
             ctx.event("q", op["q"], got)
             if not ctx.check(np.iscomplexobj(got) and got.shape == z.shape, "shape", "C09/shape/complex",
                              lambda: "got %s %s" % (got.dtype, got.shape)):
